@@ -997,6 +997,30 @@ func (ce *CEnv) call(x *ECall) Val {
 			t = types.NewPointer(t)
 		}
 		return boolVal(fmt.Sprintf("(= (itag %s) %d)", v.S, fv.typeTag(t)))
+	case "next", "prev", "owner":
+		// container/list views (raw links; the sentinel of list l is l itself)
+		e := arg(0)
+		return Val{T: e.T, S: fv.lget(ce.st, "list."+id.Name, e.S)}
+	case "llen":
+		return Val{T: types.Typ[types.Int], S: fv.lget(ce.st, "list.len", arg(0).S)}
+	case "front", "back":
+		l := arg(0)
+		key := "list.next"
+		if id.Name == "back" {
+			key = "list.prev"
+		}
+		lk := fv.lget(ce.st, key, l.S)
+		var et types.Type = types.NewPointer(types.Typ[types.Int])
+		if len(x.Args) > 1 {
+			et = arg(1).T // front(l, e): typed like the element e
+		}
+		return Val{T: et, S: "(ite (= " + lk + " " + l.S + ") 0 " + lk + ")"}
+	case "wfList":
+		return boolVal(fv.wfListTerm(ce.st, arg(0).S))
+	case "inList":
+		// inList(l, e): e is an element currently linked into l
+		l, e := arg(0), arg(1)
+		return boolVal("(and (not (= " + e.S + " 0)) (= " + fv.lget(ce.st, "list.owner", e.S) + " " + l.S + "))")
 	case "elemIndex", "pointsInto":
 		// element references (&s[i] used as a value): elemIndex(p, s) = i, pointsInto(p, s) = p denotes an element of s
 		p, s := arg(0), arg(1)
@@ -1331,6 +1355,9 @@ func (ce *CEnv) pureCall(f *types.Func, recv *Val, args []Expr) Val {
 			}
 			if key != "" {
 				fc = fv.eng.cs.Funcs[f.Pkg().Path()+"#"+key]
+			}
+			if fc == nil {
+				fc = fv.eng.externContract(f)
 			}
 		}
 		if fc != nil && fc.Pure && len(fc.Ensures) > 0 {
